@@ -161,7 +161,7 @@ theorem loopN_good {α : Type} {step : Bytes → Res (α × Bytes)} (hg : ∀ bs
     loopN_ne_fuel (fun b a r h => (hg b).2 a r h) (fun b => (hg b).1.2) fuel n bs hf⟩,
    fun as r h => loopN_ok (fun b a r h => (hg b).2 a r h) fuel n bs as r h⟩
 
-theorem decodeFlowSample_good (bs : Bytes) : Good (decodeFlowSample bs) bs 0 := by
+theorem decodeFlowSample_good (bs : Bytes) : Good (decodeFlowSample bs) bs 32 := by
   unfold decodeFlowSample
   split
   · rename_i seq sid r0 h0
@@ -186,7 +186,7 @@ theorem decodeFlowSample_good (bs : Bytes) : Good (decodeFlowSample bs) bs 0 := 
     · exact good_err _ _ _
   · exact good_err _ _ _
 
-theorem decodeCounterSample_good (bs : Bytes) : Good (decodeCounterSample bs) bs 0 := by
+theorem decodeCounterSample_good (bs : Bytes) : Good (decodeCounterSample bs) bs 12 := by
   unfold decodeCounterSample
   split
   · rename_i seq ty idx n r1 h1
